@@ -97,24 +97,26 @@ REAL = "Real"
 @register
 class DeltaInit(Contract):
     """Delta.__init__(terms): inputs == for each term in order: its name (typed by the point's output) followed by the
-    point's inputs; output Real; fresh == the names; raises if a name repeats, occurs among its own point's inputs, or a
-    log-density is not Real-valued."""
+    point's inputs and the log-density's inputs (the Delta's value depends on all of them); output Real; fresh == the
+    names; raises if a name repeats, occurs among its own point's inputs, or a log-density is not Real-valued."""
 
     props = ("C14", "C06")
     file = "funsor/delta.py"
     qualname = "Delta.__init__"
-    mutants = (("point inputs before the name", "            inputs.update({name: point.output})\n            inputs.update(point.inputs)", "            inputs.update(point.inputs)\n            inputs.update({name: point.output})"),)
+    mutants = (("point inputs before the name", "            inputs.update({name: point.output})\n            inputs.update(point.inputs)", "            inputs.update(point.inputs)\n            inputs.update({name: point.output})"), ("density inputs not declared", "            inputs.update(log_density.inputs)\n", ""))
 
     def structures(self, tier):
         pts = [(), ("i",), ("x",), ("i", "j")]
+        lds = [(), ("i",), ("k",)]
         for n in (1, 2):
             for names in itertools.product("xy", repeat=n):
                 for pin in itertools.product(pts, repeat=n):
-                    yield "names=%s,point_inputs=%s" % ("".join(names), list(pin)), (names, pin)
+                    for lin in itertools.product(lds, repeat=n):
+                        yield "names=%s,point_inputs=%s,density_inputs=%s" % ("".join(names), list(pin), list(lin)), (names, pin, lin)
 
     def build(self, p, st):
-        names, pin = st
-        terms = tuple((nm, (Tm("point_" + nm, inp, Dm(nm)), Tm("ld_" + nm, (), REAL))) for nm, inp in zip(names, pin))
+        names, pin, lin = st
+        terms = tuple((nm, (Tm("point_" + nm, inp, Dm(nm)), Tm("ld_" + nm, li, REAL))) for nm, inp, li in zip(names, pin, lin))
         rec = []
 
         class Self:
@@ -126,12 +128,12 @@ class DeltaInit(Contract):
         return {"super": lambda sc, *a: make_super(ctx.rec)}
 
     def bad(self, st):
-        names, pin = st
+        names, pin, lin = st
         seen = []
-        for nm, inp in zip(names, pin):
+        for nm, inp, li in zip(names, pin, lin):
             if nm in seen or nm in inp:
                 return True
-            seen += [nm] + list(inp)
+            seen += [nm] + list(inp) + list(li)
         return False
 
     def may_raise(self, ctx, etype):
@@ -141,14 +143,14 @@ class DeltaInit(Contract):
         return self.bad(st)
 
     def ensures(self, ctx, result):
-        names, pin = ctx.st
+        names, pin, lin = ctx.st
         exp = []
-        for nm, inp in zip(names, pin):
-            for k in (nm,) + tuple(inp):
+        for nm, inp, li in zip(names, pin, lin):
+            for k in (nm,) + tuple(inp) + tuple(li):
                 if k not in exp:
                     exp.append(k)
         inputs, output, fresh, bound = ctx.rec[0][1]
-        return [("well_formed_when_returns", not self.bad(ctx.st)), ("inputs_names_then_point_inputs", list(inputs) == exp and all(inputs[nm] == Dm(nm) for nm in exp)), ("output_real_fresh_names", output == REAL and fresh == frozenset(names) and bound == {})]
+        return [("well_formed_when_returns", not self.bad(ctx.st)), ("inputs_names_then_point_and_density_inputs", list(inputs) == exp and all(inputs[nm] == Dm(nm) for nm in exp)), ("output_real_fresh_names", output == REAL and fresh == frozenset(names) and bound == {})]
 
 
 @register
